@@ -1,4 +1,458 @@
-import StreamzVerif.Model.Graph
+import StreamzVerif.Proofs.Failure
+/-
+C16 — failures reach the emitter, keep node state intact, are never checkpointed.
+
+Model: `Model/Graph.lean`.  User functions are `Fn.eval` / `Fn2.eval : … → Except Err Val`; the body of each
+`update` is `upd k s who v md : UpdRes` (`effs` performed, then `err` raised); the interpreter
+`emitAt / deliver / update / runEffs` (= `Stream._emit`, core.py 429-462) aborts the enclosing frames at the
+point of a raise, with the state as mutated so far, and logs `Ev.raised d e` at the node `d` whose own code
+raised (a node's `update`, or the function of a synchronous `sink`).  `partition.update` is a `gen.coroutine`
+(`isCoroutine`): it captures the exception in the awaitable it returns (`Res.carried`).
+
+All theorems are for every graph `G`, every fuel, every state, every input.
+
+  1. the exception reaches the caller of emit
+       `failure_reaches_emitter`              no coroutine kind: a raise anywhere is the error `emitAt` returns
+       `errors_come_from_nodes`               … and conversely every error returned was raised by some node's
+                                              code, as the very last thing the run did (`abort_is_immediate`)
+       `failure_reaches_emitter_or_awaitable` any graph: raised, or carried by the returned awaitable
+       `carried_was_raised`                   … and what the awaitable carries was raised by some node
+  2. the node whose function raised keeps the state it had before the call
+       `failing_upd_keeps_state`              every kind: no `.set`, no `.emit`; at most the initial retain
+       `failing_upd_effects`, `failing_partition_effects`
+       `user_failure_*`                       the user function failing *is* `upd … .err = some e`
+       `failing_update_keeps_graph_state`     the `update` call leaves all node states and all edges unchanged
+       `failing_node_keeps_call_state`        at the end of a failed `emitAt` the failing node is in the state in
+                                              which its code was run (and failed) on the logged arrival
+       `failing_run_projects_at_failing_node` on DAGs: that state is the fold of `upd` over the node's earlier
+                                              arrivals = the fold over all its arrivals (C01's projection
+                                              extended to the failing node of a failed run)
+  3. later elements are processed as if the failing element had not been offered to that node
+       `later_as_if_absent`, `survivors_never_fail`, `later_as_if_absent_filter`, `later_as_if_absent_map`
+  4. the failed element's completion callback is never triggered
+       `failed_never_fires_partial`, `failed_never_fires_fresh_partial`   within the failing run
+       `failed_never_fires_forever_partial`   nor by anything that happens later
+       `sinkFail_keeps_count`                 a failing asynchronous consumer releases nothing, ever
+     PARTIAL: the three `…_partial` theorems are proved for graphs all of whose kinds are unbuffered (`Unbuffered`:
+     source, union, map, starmap, filter, accumulate, slice, unique, flatten, pluck, sync and async sinks — the
+     "directly connected (non-buffered) pipeline" of the property text), with any topology (fan-out, fan-in through
+     union, even cycles), any fuel.  Missing: graphs that also contain kinds which store metadata (partition,
+     partition_unique, sliding_window, collect, zip, combine_latest, zip_latest); there the statement needs the
+     per-node accounting of stored references (count = stored + in flight), which is property C04's invariant.
+-/
 namespace StreamzVerif.Graph
-theorem placeholder_C16 : True := trivial
+
+variable (G : NodeId → Kind)
+
+/-! ### 1. The exception reaches the emitter -/
+
+/-- **Nothing swallows a failure.**  On a pipeline of directly connected nodes (no coroutine kind), if any node's
+own code — a user function of `map`/`filter`/`accumulate`/…, a key function, a synchronous sink's function —
+raises `e` at any depth below `_emit` at `n`, then `e` is what the top-level `_emit` raises; no awaitable
+carries anything. -/
+theorem failure_reaches_emitter (hG : NoCoroutine G) (fuel : Nat) (n : NodeId) (v : Val) (md : Meta)
+    (S : State) (d : NodeId) (e : Err) (h : Ev.raised d e ∈ (emitAt G fuel n v md S).log) :
+    (emitAt G fuel n v md S).err = some e ∧ (emitAt G fuel n v md S).carried = none :=
+  ⟨(raised_err_all G hG fuel (.emit n v md) S).2 d e h, (raised_err_all G hG fuel (.emit n v md) S).1⟩
+
+/-- The same for a single `downstream.update(x, who, metadata)` call. -/
+theorem failure_reaches_update_caller (hG : NoCoroutine G) (fuel : Nat) (d' who : NodeId) (v : Val) (md : Meta)
+    (S : State) (d : NodeId) (e : Err) (h : Ev.raised d e ∈ (update G fuel d' who v md S).log) :
+    (update G fuel d' who v md S).err = some e :=
+  (raised_err_all G hG fuel (.update d' who v md) S).2 d e h
+
+/-- **Errors come only from node code, never from the plumbing** (any graph): an error returned by `_emit` is
+the model's fuel pseudo-error or was raised by some node. -/
+theorem errors_come_from_nodes (fuel : Nat) (n : NodeId) (v : Val) (md : Meta) (S : State) (e : Err)
+    (h : (emitAt G fuel n v md S).err = some e) :
+    e = .outOfFuel ∨ ∃ d, Ev.raised d e ∈ (emitAt G fuel n v md S).log := by
+  by_cases he : e = .outOfFuel
+  · exact Or.inl he
+  · exact Or.inr (failSite_all G fuel (.emit n v md) S e h he).raised_mem
+
+/-- **The abort is immediate** (any graph): when `_emit` raises, the raise is the last thing that happened — no
+arrival, emission, release or callback follows it. -/
+theorem abort_is_immediate (fuel : Nat) (n : NodeId) (v : Val) (md : Meta) (S : State) (e : Err)
+    (h : (emitAt G fuel n v md S).err = some e) (he : e ≠ .outOfFuel) :
+    ∃ d l, (emitAt G fuel n v md S).log = l ++ [Ev.raised d e] :=
+  (failSite_all G fuel (.emit n v md) S e h he).raised_last
+
+/-- **With coroutine kinds** (`partition`): a raise anywhere below is never lost — `_emit` raises, or the
+awaitable it returns carries an exception. -/
+theorem failure_reaches_emitter_or_awaitable (fuel : Nat) (n : NodeId) (v : Val) (md : Meta) (S : State)
+    (d : NodeId) (e : Err) (h : Ev.raised d e ∈ (emitAt G fuel n v md S).log) :
+    (∃ e', (emitAt G fuel n v md S).err = some e') ∨ (∃ e', (emitAt G fuel n v md S).carried = some e') := by
+  rcases (raised_err_or_carried_all G fuel (.emit n v md) S).1 d e h with k | k
+  · exact Or.inl (Option.ne_none_iff_exists'.1 k)
+  · exact Or.inr (Option.ne_none_iff_exists'.1 k)
+
+/-- … and whatever the awaitable carries is a genuine exception raised by some node during this run. -/
+theorem carried_was_raised (fuel : Nat) (n : NodeId) (v : Val) (md : Meta) (S : State) (e : Err)
+    (h : (emitAt G fuel n v md S).carried = some e) :
+    e ≠ .outOfFuel ∧ ∃ d, Ev.raised d e ∈ (emitAt G fuel n v md S).log :=
+  (raised_err_or_carried_all G fuel (.emit n v md) S).2 e h
+
+/-! ### 2. The failing node keeps its state -/
+
+/-- **Per kind, every kind.**  If the body of `update` raises on an arrival, it has set no state and emitted
+nothing; the only thing it may have done is the initial `_retain_refs(metadata)` of the kinds that start with
+one (`retainsFirst`).  So the node's state after the call is the state before it, and it has no outputs. -/
+theorem failing_upd_keeps_state (k : Kind) (s : NState) (who : NodeId) (v : Val) (md : Meta) (e : Err)
+    (h : (upd k s who v md).err = some e) :
+    (upd k s who v md).effs = (if retainsFirst k then [.retain md] else []) ∧
+    finalLoc (upd k s who v md).effs s = s ∧ outsOf (upd k s who v md).effs = [] :=
+  ⟨upd_err_effs h, upd_err_finalLoc h, upd_err_outsOf h⟩
+
+/-- The kinds with a user function and no buffer: a failing call has no effect at all. -/
+theorem failing_upd_effects (k : Kind) (s : NState) (who : NodeId) (v : Val) (md : Meta) (e : Err)
+    (hk : (∃ f, k = .map f) ∨ (∃ f, k = .starmap f) ∨ (∃ p, k = .filter p) ∨
+          (∃ f st rs ws, k = .accumulate f st rs ws) ∨ (∃ m key hb, k = .unique m key hb) ∨
+          k = .flatten ∨ (∃ p, k = .pluck p))
+    (h : (upd k s who v md).err = some e) : (upd k s who v md).effs = [] := by
+  rw [upd_err_effs h]
+  rcases hk with ⟨f, rfl⟩ | ⟨f, rfl⟩ | ⟨f, rfl⟩ | ⟨f, st, rs, ws, rfl⟩ | ⟨m, key, hb, rfl⟩ | rfl | ⟨p, rfl⟩ <;> rfl
+
+/-- `partition` / `partition_unique`: `_retain_refs(metadata)` precedes the key function, so when the key
+function (or the dict lookup on an unhashable key) raises, the retain — and nothing else — has happened. -/
+theorem failing_partition_effects (k : Kind) (s : NState) (who : NodeId) (v : Val) (md : Meta) (e : Err)
+    (hk : (∃ n key, k = .partition n key) ∨ (∃ n key kl, k = .partitionUnique n key kl))
+    (h : (upd k s who v md).err = some e) : (upd k s who v md).effs = [.retain md] := by
+  rw [upd_err_effs h]
+  rcases hk with ⟨n, key, rfl⟩ | ⟨n, key, kl, rfl⟩ <;> rfl
+
+/-! the hypothesis `(upd …).err = some e` is exactly "the user function failed on this arrival" -/
+
+theorem user_failure_map (f : Fn) (s : NState) (who : NodeId) (v : Val) (md : Meta) (e : Err) :
+    (upd (.map f) s who v md).err = some e ↔ f.eval v = .error e := by
+  simp only [upd, raise]
+  cases f.eval v <;> simp
+
+theorem user_failure_filter (p : Fn) (s : NState) (who : NodeId) (v : Val) (md : Meta) (e : Err) :
+    (upd (.filter p) s who v md).err = some e ↔ p.eval v = .error e := by
+  simp only [upd, raise]
+  cases p.eval v with
+  | error e' => simp
+  | ok b => simp only []; split <;> simp
+
+/-- `accumulate` with a state and a plain (not `returns_state`) function: fails iff `func(state, x)` fails;
+the very first element (no state yet) never fails. -/
+theorem user_failure_accumulate (f : Fn2) (start : Option Val) (ws : Bool) (s : NState) (st : Val)
+    (hs : s.acc = some st) (who : NodeId) (v : Val) (md : Meta) (e : Err) :
+    (upd (.accumulate f start false ws) s who v md).err = some e ↔ f.eval st v = .error e := by
+  simp only [upd, raise, hs]
+  cases f.eval st v <;> simp
+
+theorem user_failure_unique (m : Option Nat) (key : Fn) (hb : Bool) (s : NState) (who : NodeId) (v : Val) (md : Meta)
+    (e : Err) (h : key.eval v = .error e) : (upd (.unique m key hb) s who v md).err = some e := by
+  simp only [upd, raise, h]
+
+theorem user_failure_partition (n : Nat) (key : Fn) (s : NState) (who : NodeId) (v : Val) (md : Meta)
+    (e : Err) (h : key.eval v = .error e) : (upd (.partition n (some key)) s who v md).err = some e := by
+  simp only [upd, raise, h]
+
+/-- **Graph level.**  An `update` call in which the node's own code raises leaves *every* node's state and every
+edge exactly as they were before the call (for every fuel) … -/
+theorem failing_update_keeps_graph_state (fuel : Nat) (d who : NodeId) (v : Val) (md : Meta) (S : State)
+    (e : Err) (hs : ∀ m, G d ≠ .sink m) (h : (upd (G d) (S.loc d) who v md).err = some e) :
+    (update G fuel d who v md S).st.loc = S.loc ∧ (update G fuel d who v md S).st.downs = S.downs :=
+  update_own_failure_frame G fuel d who v md S e hs h
+
+/-- … and a synchronous sink (whether its function raises or not) changes nothing at all. -/
+theorem sync_sink_keeps_graph_state (fuel : Nat) (d who : NodeId) (v : Val) (md : Meta) (S : State) (fn : Fn)
+    (hs : G d = .sink (.sync fn)) : (update G fuel d who v md S).st = S :=
+  update_sync_sink_frame G fuel d who v md S fn hs
+
+/-- **At the end of a failed `_emit`** (any graph, any depth): the log ends with the arrival
+`arrive d who v' md'` on which node `d` failed, reference-count events of that frame, and `raised d e`; and `d`
+is either a synchronous sink whose function fails on `v'`, or a node whose `update` body fails on that arrival
+*when run in the state `d` has at the end of the run* — the state of the failing node at the end is the state in
+which its function was called: neither its own aborted call nor the unwinding changed it. -/
+theorem failing_node_keeps_call_state (fuel : Nat) (n : NodeId) (v : Val) (md : Meta) (S : State) (e : Err)
+    (h : (emitAt G fuel n v md S).err = some e) (he : e ≠ .outOfFuel) :
+    ∃ (d who : NodeId) (v' : Val) (md' : Meta) (pre q : List Ev),
+      (emitAt G fuel n v md S).log = pre ++ Ev.arrive d who v' md' :: q ++ [Ev.raised d e] ∧
+      (∀ ev ∈ q, ev.isRc) ∧
+      ((∃ fn, G d = .sink (.sync fn) ∧ fn.eval v' = .error e) ∨
+       ((∀ m, G d ≠ .sink m) ∧
+        (upd (G d) ((emitAt G fuel n v md S).st.loc d) who v' md').err = some e)) :=
+  failSite_all G fuel (.emit n v md) S e h he
+
+/-- **The projection theorem of C01 extends to the failing node of a failed run** (DAG, no coroutine kind).
+When `_emit` raises `e`, there is a node `d` that raised it such that: the arrivals at `d` during the run are
+`as ++ [a]`; when `d`'s code ran on `a` (and failed), `d` was in the state obtained by folding its `upd` over
+the earlier arrivals `as` — and that is the state it has at the end; equivalently, its final state is the fold
+over *all* its arrivals, the failing one contributing nothing. -/
+theorem failing_run_projects_at_failing_node (hG : NoCoroutine G) (fuel : Nat) (n : NodeId) (v : Val) (md : Meta)
+    (S : State) (hA : Acyclic S) (e : Err)
+    (h : (emitAt G fuel n v md S).err = some e) (he : e ≠ .outOfFuel) :
+    ∃ (d : NodeId) (a : Arr) (as : List Arr),
+      Ev.raised d e ∈ (emitAt G fuel n v md S).log ∧
+      arrivalsAt d (emitAt G fuel n v md S).log = as ++ [a] ∧
+      (emitAt G fuel n v md S).st.loc d = replay G d (S.loc d) as ∧
+      (emitAt G fuel n v md S).st.loc d = replay G d (S.loc d) (arrivalsAt d (emitAt G fuel n v md S).log) ∧
+      ((∃ fn, G d = .sink (.sync fn) ∧ fn.eval a.2.1 = .error e) ∨
+       ((∀ m, G d ≠ .sink m) ∧ failsAt (G d) (replay G d (S.loc d) as) a = true ∧
+        (upd (G d) (replay G d (S.loc d) as) a.1 a.2.1 a.2.2).err = some e)) := by
+  obtain ⟨d, who, v', md', as, h1, h2, h3, h4⟩ := abort_proj_all G hG fuel (.emit n v md) S e hA h he
+  simp only [interp] at h1 h2 h3 h4
+  refine ⟨d, (who, v', md'), as, h3, h1, h2, ?_, ?_⟩
+  · rw [h1, replay_append, ← h2]
+    rcases h4 with ⟨fn, hfn, _⟩ | ⟨_, hu⟩
+    · simp [replay, hfn, upd, finalLoc]
+    · simp only [replay, List.foldl_cons, List.foldl_nil]
+      exact (upd_err_finalLoc hu).symm
+  · rcases h4 with h4 | ⟨hs, hu⟩
+    · exact Or.inl h4
+    · rw [h2] at hu
+      exact Or.inr ⟨hs, by simp [failsAt, hu], hu⟩
+
+/-! ### 3. Later elements are processed as if the failing element had not been offered -/
+
+/-- **The node run over an arrival list** (state and everything it emits, `localRun` of C01 — the graph-level
+projection theorem says this is what each node of a graph does) **equals the run over the list with the failing
+arrivals removed** (`survivors`: the arrivals on which the node's code did not raise, state threaded). -/
+theorem later_as_if_absent (k : Kind) (s : NState) (as : List Arr) :
+    localRun k s as = localRun k s (survivors k s as) :=
+  localRun_survivors k s as
+
+/-- … and in that reduced run nothing fails (so `survivors` really removes all and only the failing arrivals:
+it is idempotent and leaves a failure-free list alone). -/
+theorem survivors_never_fail (k : Kind) (s : NState) (as : List Arr) :
+    NoFail k s (survivors k s as) ∧ survivors k s (survivors k s as) = survivors k s as ∧
+    (NoFail k s as → survivors k s as = as) :=
+  ⟨survivors_noFail k s as, survivors_of_noFail k s _ (survivors_noFail k s as), survivors_of_noFail k s as⟩
+
+/-- When failing depends on the arrival only (on all states reachable under a node invariant `I`), the reduced
+list is the plain `filter`. -/
+theorem later_as_if_absent_filter (k : Kind) (I : NState → Prop) (bad : Arr → Bool)
+    (hstep : ∀ s a, I s → I (stepLoc k s a).1) (hbad : ∀ s a, I s → failsAt k s a = bad a)
+    (s : NState) (hs : I s) (as : List Arr) :
+    localRun k s as = localRun k s (as.filter (fun a => !bad a)) := by
+  rw [localRun_survivors, survivors_eq_filter k I bad hstep hbad s hs]
+
+/-- `map f`: outputs and state are those for the arrival list without the elements on which `f` raises. -/
+theorem later_as_if_absent_map (f : Fn) (s : NState) (as : List Arr) :
+    localRun (.map f) s as =
+      localRun (.map f) s (as.filter (fun a => match f.eval a.2.1 with | .ok _ => true | .error _ => false)) := by
+  have := later_as_if_absent_filter (.map f) (fun _ => True)
+    (fun a => match f.eval a.2.1 with | .ok _ => false | .error _ => true)
+    (fun _ _ _ => trivial)
+    (fun s a _ => by simp only [failsAt, upd, raise]; cases f.eval a.2.1 <;> rfl) s trivial as
+  rw [this]
+  congr 1
+  apply List.filter_congr
+  intro a _
+  cases f.eval a.2.1 <;> rfl
+
+/-! ### 4. The failed element's completion callback is never triggered -/
+
+/-- **Within the failing run** (partial: unbuffered kinds only, see the header).  On a graph of unbuffered kinds (source, union, map, starmap, filter, accumulate,
+slice, unique, flatten, pluck, synchronous and asynchronous sinks), let `_emit` at `n` with metadata `md`
+carrying the counter `r` end in an exception.  If before the call the counter was at least what unfinished
+asynchronous consumers hold (`0 ≤ held r S`; in particular: fresh), then the callback of `r` was not scheduled
+during the run, and afterwards the counter exceeds what the pending consumers hold by at least the number of
+times `md` mentions `r`: the retain made by the aborted frame is never released. -/
+theorem failed_never_fires_partial (hG : Unbuffered G) (fuel : Nat) (n : NodeId) (v : Val) (md : Meta) (S : State)
+    (e : Err) (r : Nat) (hr : 0 < mult r md) (hS : 0 ≤ held r S)
+    (h : (emitAt G fuel n v md S).err = some e) (he : e ≠ .outOfFuel) :
+    Ev.fire r ∉ (emitAt G fuel n v md S).log ∧
+    held r (emitAt G fuel n v md S).st ≥ (mult r md : Nat) ∧
+    0 < (emitAt G fuel n v md S).st.count r := by
+  obtain ⟨a, b⟩ := emitAt_abort G hG r fuel n v md S e h he
+  have hc := held_le_count r (emitAt G fuel n v md S).st
+  exact ⟨b (by omega), by omega, by omega⟩
+
+/-- The fresh case as the property states it: the counter of the element is 0 and no pending consumer holds it. -/
+theorem failed_never_fires_fresh_partial (hG : Unbuffered G) (fuel : Nat) (n : NodeId) (v : Val) (md : Meta)
+    (S : State) (e : Err) (r : Nat) (hr : ∃ m ∈ md, m.ref = some r) (h0 : S.count r = 0)
+    (hp : S.pending = []) (h : (emitAt G fuel n v md S).err = some e) (he : e ≠ .outOfFuel) :
+    Ev.fire r ∉ (emitAt G fuel n v md S).log ∧ 0 < (emitAt G fuel n v md S).st.count r := by
+  have hm : 0 < mult r md := by
+    obtain ⟨m, hm, hmr⟩ := hr
+    clear h
+    induction md with
+    | nil => cases hm
+    | cons x xs ih =>
+      unfold mult
+      rcases List.mem_cons.1 hm with rfl | hm'
+      · simp [hmr]; omega
+      · have := ih hm'; omega
+  have := failed_never_fires_partial G hG fuel n v md S e r hm (by simp [held, h0, hp, pendSum]) h he
+  exact ⟨this.1, this.2.2⟩
+
+/-- **Forever.**  After the failed run the state is `Safe r` (given that no suspended flush was waiting to
+release `r`), and `Safe r` is invariant under everything that can happen later — pushing further elements in
+anywhere with any metadata (successfully, failing, or running out of fuel), asynchronous consumers finishing,
+asynchronous consumers failing — and none of these ever schedules the callback of `r`; the counter stays
+positive. -/
+theorem failed_never_fires_forever_partial (hG : Unbuffered G) (fuel : Nat) (n : NodeId) (v : Val) (md : Meta)
+    (S : State) (e : Err) (r : Nat) (hr : 0 < mult r md) (hS : 0 ≤ held r S)
+    (hw : ∀ w ∈ S.waiters, mult r w.2 = 0)
+    (h : (emitAt G fuel n v md S).err = some e) (he : e ≠ .outOfFuel)
+    (ops : List Op) (S' : State) (l : List Ev)
+    (hops : runOps G ops (emitAt G fuel n v md S).st = some (S', l)) :
+    Ev.fire r ∉ l ∧ 0 < S'.count r ∧ Safe r S' := by
+  have h1 := failed_never_fires_partial G hG fuel n v md S e r hr hS h he
+  have i := mono_all G hG r fuel (.emit n v md) S trivial
+  simp only [MonoP, interp] at i
+  have hsafe : Safe r (emitAt G fuel n v md S).st := ⟨by omega, by rw [i.1]; exact hw⟩
+  obtain ⟨a, b⟩ := runOps_safe G hG r ops _ S' l hsafe hops
+  have hc := held_le_count r S'
+  exact ⟨b, by have := a.1; omega, a⟩
+
+/-- **Asynchronous consumers.**  When the awaitable of an asynchronous sink fails, nothing is released: every
+counter keeps its value, the consumer's entry is gone so that it can never be finished (and released) later,
+and a `Safe` counter stays safe — now with the consumer's references added to the never-released ones. -/
+theorem sinkFail_keeps_count (tok : Tok) (S S' : State) (h : sinkFail tok S = some S') :
+    S'.count = S.count ∧ sinkDone tok S' = none ∧ sinkFail tok S' = none ∧
+    ∀ r, held r S ≤ held r S' := by
+  unfold sinkFail at h
+  cases hf : S.pending.find? (·.1 = tok) with
+  | none => rw [hf] at h; cases h
+  | some x =>
+    rw [hf] at h
+    simp only [Option.some.injEq] at h
+    subst h
+    have hnone : (S.pending.filter (·.1 ≠ tok)).find? (·.1 = tok) = none := by
+      rw [List.find?_eq_none]
+      intro y hy
+      have := (List.mem_filter.1 hy).2
+      simpa using this
+    refine ⟨rfl, ?_, ?_, fun r => ?_⟩
+    · simp only [sinkDone, hnone]
+    · simp only [sinkFail, hnone]
+    · have := pendSum_filter_le r (·.1 ≠ tok) S.pending
+      simp only [held]; omega
+
+/-! ### Non-vacuity -/
+
+/-- `accumulate(failAdd)` over the arrivals 2, 1, 3 where `failAdd 3 1` raises on every `x ≡ 1 (mod 3)`:
+the failing `1` leaves the state at 2 … -/
+example : (localRun (.accumulate (.failAdd 3 1) none false false) {}
+    [(0, .int 2, []), (0, .int 1, [])]).1.acc = some (.int 2) := by decide +kernel
+/-- … it does fail there … -/
+example : (upd (.accumulate (.failAdd 3 1) none false false) { acc := some (.int 2) } 0 (.int 1) []).err
+    = some .valueError := by decide +kernel
+/-- … and the outputs are 2, then 5 = 2 + 3: as if the 1 had never been offered. -/
+example : (localRun (.accumulate (.failAdd 3 1) none false false) {}
+    [(0, .int 2, []), (0, .int 1, []), (0, .int 3, [])]).2 = [(.int 2, []), (.int 5, [])] := by decide +kernel
+example : survivors (.accumulate (.failAdd 3 1) none false false) {}
+    [(0, .int 2, []), (0, .int 1, []), (0, .int 3, [])] = [(0, .int 2, []), (0, .int 3, [])] := by
+  decide +kernel
+/-- whether an arrival fails can depend on the state: the first element of an `accumulate` never fails (it
+becomes the state), the same value fails later — `survivors` threads the state, a plain filter would not do -/
+example : survivors (.accumulate (.failAdd 3 1) none false false) {}
+    [(0, .int 1, []), (0, .int 1, []), (0, .int 3, [])] = [(0, .int 1, []), (0, .int 3, [])] := by
+  decide +kernel
+
+/-- source 0 → accumulate(failAdd 3 1) 1 → sink 2; source 0 → sink 3 (a sibling after the failing branch) -/
+def c16G : NodeId → Kind
+  | 0 => .source
+  | 1 => .accumulate (.failAdd 3 1) none false false
+  | _ => .sink (.sync .id)
+
+def c16S : State :=
+  { loc := fun i => if i = 1 then { ups := [0] } else {}
+    downs := fun i => match i with | 0 => [1, 3] | 1 => [2] | _ => [] }
+
+theorem c16G_noCoroutine : NoCoroutine c16G := by
+  intro i; unfold c16G; split <;> rfl
+theorem c16G_unbuffered : Unbuffered c16G := by
+  intro i; unfold c16G; split <;> rfl
+theorem c16S_acyclic : Acyclic c16S := by
+  intro u d h
+  unfold c16S at h
+  simp only [] at h
+  split at h <;> simp at h <;> (unfold NodeId at *; omega)
+
+/-- three elements 2, 1, 3 pushed in one after the other, each with its own reference counter 10, 11, 12:
+the second `_emit` raises ValueError, node 1 keeps `acc = 2`, the sibling sink 3 is not served, the callback of
+counter 11 is not scheduled and the counter stays at 2 (the aborted frame's two retains, neither released) — while counters 10 and 12 fire; the third `_emit` delivers 5 = 2 + 3 to sink 2. -/
+example :
+    let r1 := emitAt c16G 20 0 (.int 2) [⟨0, some 10⟩] c16S
+    let r2 := emitAt c16G 20 0 (.int 1) [⟨1, some 11⟩] r1.st
+    let r3 := emitAt c16G 20 0 (.int 3) [⟨2, some 12⟩] r2.st
+    r1.err = none ∧ r2.err = some .valueError ∧ r3.err = none ∧
+    (r1.st.loc 1).acc = some (.int 2) ∧ (r2.st.loc 1).acc = some (.int 2) ∧ (r3.st.loc 1).acc = some (.int 5) ∧
+    arrivalsAt 2 r3.log = [(1, .int 5, [⟨2, some 12⟩])] ∧
+    arrivalsAt 3 r2.log = [] ∧
+    hasFire 10 r1.log = true ∧ hasFire 11 r2.log = false ∧ hasFire 11 r3.log = false ∧ hasFire 12 r3.log = true ∧
+    r2.st.count 11 = 2 ∧ r3.st.count 11 = 2 ∧ r3.st.count 10 = 0 ∧ r3.st.count 12 = 0 := by
+  decide +kernel
+
+/-- the hypothesis of `failure_reaches_emitter` holds of the failing run (node 1 raised ValueError), and so do
+those of `failed_never_fires_fresh_partial` for counter 11 -/
+example : Ev.raised 1 .valueError ∈ (emitAt c16G 20 0 (.int 1) [⟨1, some 11⟩]
+    (emitAt c16G 20 0 (.int 2) [] c16S).st).log :=
+  mem_of_any_isRaised (by decide +kernel)
+example : Ev.fire 11 ∉ (emitAt c16G 20 0 (.int 1) [⟨1, some 11⟩] (emitAt c16G 20 0 (.int 2) [] c16S).st).log ∧
+    0 < (emitAt c16G 20 0 (.int 1) [⟨1, some 11⟩] (emitAt c16G 20 0 (.int 2) [] c16S).st).st.count 11 :=
+  failed_never_fires_fresh_partial c16G c16G_unbuffered 20 0 (.int 1) [⟨1, some 11⟩] _ .valueError 11
+    ⟨_, List.mem_singleton.2 rfl, rfl⟩ (by decide +kernel) (by decide +kernel) (by decide +kernel)
+    (by decide)
+
+/-- … and those of `failing_run_projects_at_failing_node`: -/
+example :=
+  failing_run_projects_at_failing_node c16G c16G_noCoroutine 20 0 (.int 1) [] _
+    ((c16S_acyclic).of_sublist (interp_downs_sublist c16G 20 (.emit 0 (.int 2) []) c16S)) .valueError
+    (by decide +kernel) (by decide)
+
+/-- source 0 → map(failIf 2 0) 1 → sink 2, an element with a reference counter: `err = ValueError`, no callback,
+counter 1 -/
+def c16G2 : NodeId → Kind
+  | 0 => .source
+  | 1 => .map (.failIf 2 0)
+  | _ => .sink (.sync .id)
+
+def c16S2 : State :=
+  { loc := fun i => if i = 1 then { ups := [0] } else {}
+    downs := fun i => match i with | 0 => [1] | 1 => [2] | _ => [] }
+
+example : (emitAt c16G2 20 0 (.int 4) [⟨0, some 7⟩] c16S2).err = some .valueError ∧
+    (emitAt c16G2 20 0 (.int 4) [⟨0, some 7⟩] c16S2).carried = none ∧
+    hasFire 7 (emitAt c16G2 20 0 (.int 4) [⟨0, some 7⟩] c16S2).log = false ∧
+    (emitAt c16G2 20 0 (.int 4) [⟨0, some 7⟩] c16S2).st.count 7 = 1 ∧
+    -- an odd element goes through and its callback fires
+    (emitAt c16G2 20 0 (.int 5) [⟨0, some 8⟩] c16S2).err = none ∧
+    hasFire 8 (emitAt c16G2 20 0 (.int 5) [⟨0, some 8⟩] c16S2).log = true := by
+  decide +kernel
+
+/-- later operations on the state after the failure (the same element offered again and failing again, another
+one succeeding): counter 7 only grows, never fires -/
+example :
+    (runOps c16G2 [.emit 20 0 (.int 4) [⟨0, some 7⟩], .emit 20 0 (.int 5) [⟨1, some 7⟩]]
+      (emitAt c16G2 20 0 (.int 4) [⟨0, some 7⟩] c16S2).st).map
+      (fun p => (p.1.count 7, hasFire 7 p.2)) = some (2, false) := by
+  decide +kernel
+
+/-- with a coroutine kind the exception is carried, not raised:
+source 0 → partition(2, key = failIf 2 0) 1 → sink 2; the retain made before the key function stays -/
+def c16G3 : NodeId → Kind
+  | 0 => .source
+  | 1 => .partition 2 (some (.failIf 2 0))
+  | _ => .sink (.sync .id)
+
+example : (emitAt c16G3 20 0 (.int 4) [⟨0, some 7⟩] c16S2).err = none ∧
+    (emitAt c16G3 20 0 (.int 4) [⟨0, some 7⟩] c16S2).carried = some .valueError ∧
+    (upd (c16G3 1) {} 0 (.int 4) [⟨0, some 7⟩]).effs.length = 1 ∧
+    ((emitAt c16G3 20 0 (.int 4) [⟨0, some 7⟩] c16S2).st.loc 1).items = [] ∧
+    (emitAt c16G3 20 0 (.int 4) [⟨0, some 7⟩] c16S2).st.count 7 = 1 := by
+  decide +kernel
+
+/-- an asynchronous consumer that fails: source 0 → sink(async) 1.  The emit succeeds (token 0 pending, counter
+at 1 = the consumer's reference); `sinkFail 0` leaves the counter at 1 and the token cannot be finished any
+more, whereas `sinkDone 0` would have released it and fired the callback. -/
+def c16G4 : NodeId → Kind
+  | 0 => .source
+  | _ => .sink .async
+
+def c16S4 : State := { loc := fun _ => {}, downs := fun i => match i with | 0 => [1] | _ => [] }
+
+example :
+    let r := emitAt c16G4 20 0 (.int 4) [⟨0, some 7⟩] c16S4
+    r.err = none ∧ r.toks = [0] ∧ r.st.count 7 = 1 ∧ hasFire 7 r.log = false ∧
+    ((sinkFail 0 r.st).map (fun S' => (S'.count 7, (sinkDone 0 S').isNone))) = some (1, true) ∧
+    ((sinkDone 0 r.st).map (fun p => (p.1.count 7, hasFire 7 p.2))) = some (0, true) := by
+  decide +kernel
+
 end StreamzVerif.Graph
